@@ -97,8 +97,14 @@ class Worker(object):
         return self.p.poll() is None
 
 
+FAIL_FAST = int(os.environ.get("VERIF_FAIL_FAST", "60"))
+
+
 def run_cases(prop, cases, jobs, watchdog, env, progress=False):
     """Returns list of result dicts (one per case, in completion order)."""
+    known_patterns = [k["mechanism"] for k in load_known() if k.get("property") == prop and k.get("status") == "known"]
+    bad_cases = [0]
+    skipped = [0]
     todo = queue.Queue()
     for c in cases:
         todo.put((c, 0))
@@ -114,6 +120,11 @@ def run_cases(prop, cases, jobs, watchdog, env, progress=False):
                 case, attempt = todo.get_nowait()
             except queue.Empty:
                 break
+            if FAIL_FAST and bad_cases[0] >= FAIL_FAST:
+                # the verdict is settled (that many cases with unlisted violations): the remaining cases are not run
+                with lock:
+                    skipped[0] += 1
+                continue
             if w is None or not w.alive():
                 if w is not None:
                     w.close()
@@ -158,6 +169,9 @@ def run_cases(prop, cases, jobs, watchdog, env, progress=False):
                 continue
             with lock:
                 results.append(r)
+                if any(not any(fnmatch.fnmatchcase(v.get("mech", ""), pat) for pat in known_patterns)
+                       for v in r.get("violations", [])):
+                    bad_cases[0] += 1
                 if progress:
                     sys.stderr.write("  [%d/%d] %s %.1fs v=%d\n" % (
                         len(results), len(cases), case.get("name"), r.get("wall", 0), len(r.get("violations", []))))
@@ -169,6 +183,8 @@ def run_cases(prop, cases, jobs, watchdog, env, progress=False):
         t.start()
     for t in threads:
         t.join()
+    if skipped[0]:
+        sys.stderr.write("  (%d cases not run: %d cases had already reported unlisted violations)\n" % (skipped[0], bad_cases[0]))
     return results, fatal, engage
 
 
